@@ -1,10 +1,11 @@
 /-
   Postconditions of the slice readers on ARBITRARY input (continuation of Lemmas/Post.lean): whatever
   `sbdf_va_read`, `sbdf_cs_read`, `sbdf_ts_read` return with OK is within the limits the
-  `Reads`/`Emits` theorems ask for (`Fits`), except for two facts that are properties of the input
+  `Reads`/`Emits` theorems ask for (`Fits`), except for one fact that is a property of the input
   rather than of the reader: that the byte-size header of a string/binary array (Σ over its
-  elements) fits an `int` — it does whenever the file is smaller than 400 MiB — and that a stored
-  property count is not negative (`sbdf_cs_read` accepts a negative count as "no properties").
+  elements) fits an `int` — it does whenever the file is smaller than 400 MiB.  (Before the
+  repair of F21 a second exception was needed: `sbdf_cs_read` accepted a negative property
+  count as "no properties".)
 -/
 import Sbdf.Lemmas.Post
 import Sbdf.Lemmas.ReadsSlice
@@ -106,18 +107,18 @@ theorem Post.readVA (c : Cfg) : Post (Sbdf.readVA c) (VA.FitsR c) := by
 def CS.FitsR (c : Cfg) (x : CS) : Prop :=
   x.values.FitsR c ∧
   ((x.propCnt = x.props.length ∧ (x.props.length : Int) * 8 ≤ c.cap ∧ (x.props.length : Int) * 8 ≤ INT_MAX) ∨
-   (x.propCnt ≤ 0 ∧ x.props = [])) ∧
+   (x.propCnt = 0 ∧ x.props = [])) ∧
   ∀ p ∈ x.props, fitsStr c p.1.length ∧ p.2.FitsR c
 
 def CS.BSOk (x : CS) : Prop := x.values.BSOk ∧ ∀ p ∈ x.props, p.2.BSOk
 
-theorem CS.fits_of {c : Cfg} {x : CS} (h : x.FitsR c) (hb : x.BSOk) (hnn : 0 ≤ x.propCnt) : x.Fits c := by
+theorem CS.fits_of {c : Cfg} {x : CS} (h : x.FitsR c) (hb : x.BSOk) : x.Fits c := by
   obtain ⟨hv, hp, hprops⟩ := h
   have hpp : ∀ p ∈ x.props, fitsStr c p.1.length ∧ p.2.Fits c :=
     fun p hp' => ⟨(hprops p hp').1, VA.fits_of (hprops p hp').2 (hb.2 p hp')⟩
   rcases hp with ⟨h1, h2, h3⟩ | ⟨h1, h2⟩
   · exact ⟨VA.fits_of hv hb.1, h1, h2, h3, hpp⟩
-  · have h0 : x.propCnt = 0 := by omega
+  · have h0 : x.propCnt = 0 := h1
     refine ⟨VA.fits_of hv hb.1, by rw [h0, h2]; rfl, by rw [h2]; simp, by rw [h2]; simp [INT_MAX], hpp⟩
 
 theorem Post.readProp (c : Cfg) : Post (Sbdf.readProp c) (fun p => fitsStr c p.1.length ∧ p.2.FitsR c) := by
@@ -131,6 +132,7 @@ theorem Post.readCS (c : Cfg) : Post (Sbdf.readCS c) (CS.FitsR c) := by
   refine Post.bind (Q := fun _ => True) Post.trivial (fun _ _ => ?_)
   refine Post.bind (Post.readVA c) (fun values hvals => ?_)
   refine Post.bind (Post.readInt32 c) (fun v hv => ?_)
+  refine Post.ite (fun _ => Post.fail) (fun hv0 => ?_)
   refine Post.ite (fun hpos => ?_) (fun hnp => Post.pure ⟨hvals, .inr ⟨by simp only; omega, rfl⟩, by simp⟩)
   refine Post.ite (fun _ => Post.fail) (fun _ => ?_)
   refine Post.bind (Post.guardUB _ _) (fun _ hg => ?_)
